@@ -27,11 +27,24 @@ pub fn run_c03(data: &[u8]) -> Verdict {
     }
 }
 
+/// C10 on arbitrary signed structures: the C08 byte format, bit 3 of the first byte adds a
+/// (meaningless) KB-JWT string.
+pub fn run_c10(data: &[u8]) -> Verdict {
+    match crate::ops::decode_c08(data) {
+        Some(case) => {
+            let kb = if data[0] & 8 != 0 { Some("e30.e30.AAAA".to_string()) } else { None };
+            crate::oracle::c10::check_structure(&case.payload, &case.disclosures, case.alg, kb, &mut stats())
+        }
+        None => Ok(()),
+    }
+}
+
 /// Human-readable form of the case a fuzz input decodes to.
 pub fn describe(id: &str, data: &[u8]) -> String {
     match id {
         "C07" => crate::ops::decode_c07(data).map(|c| serde_json::to_string(&c).unwrap_or_default()),
         "C08" => crate::ops::decode_c08(data).map(|c| serde_json::to_string(&c).unwrap_or_default()),
+        "C10" => crate::ops::decode_c08(data).map(|c| serde_json::to_string(&c).unwrap_or_default()),
         "C03" => crate::ops::decode_c03(data).map(|c| serde_json::to_string(&c).unwrap_or_default()),
         _ => None,
     }
